@@ -634,7 +634,10 @@ Definition parse_tree (ts : list token) : option xtree :=
 
 (** Adjacent character data is one piece of character data, and an empty piece
     is none (CDATA sections and entity references split character data into
-    several tokens; an encoder is free to join them). *)
+    several tokens; an encoder is free to join them).  Processing instructions
+    and directives are not part of the element tree the property speaks of
+    ("element and attribute names, attribute values, character data, comments
+    and child order"): they are left out, before character data is merged. *)
 Fixpoint merge_text (l : list xtree) : list xtree :=
   match l with
   | [] => []
@@ -643,6 +646,8 @@ Fixpoint merge_text (l : list xtree) : list xtree :=
       | Text s' :: r' => Text (s ++ s')%string :: r'
       | r' => if str_empty s then r' else Text s :: r'
       end
+  | ProcInst _ _ :: r => merge_text r
+  | Directive _ :: r => merge_text r
   | x :: r => x :: merge_text r
   end.
 
@@ -656,15 +661,15 @@ Fixpoint norm (t : xtree) : xtree :=
 Definition norm_forest (f : list xtree) : list xtree := merge_text (map norm f).
 
 (** Same namespace-expanded element and attribute names, attribute values,
-    character data, comments, processing instructions and child order. *)
+    character data, comments and child order. *)
 Definition same_forest (f g : list xtree) : bool :=
   list_eqb token_eqb (forest_tokens (norm_forest f)) (forest_tokens (norm_forest g)).
 
 Definition same_tree (a b : xtree) : bool := same_forest [a] [b].
 
 (** The stream counterpart of [norm] (see [calls_ok] below): declaration
-    attributes dropped, every maximal run of character data one token, empty
-    runs none. *)
+    attributes, processing instructions and directives dropped, then every
+    maximal run of character data one token, empty runs none. *)
 Fixpoint norm_stream (l : list token) : list token :=
   match l with
   | [] => []
@@ -674,6 +679,8 @@ Fixpoint norm_stream (l : list token) : list token :=
       | r' => if str_empty s then r' else TText s :: r'
       end
   | TStart n a :: r => TStart n (strip_decls a) :: norm_stream r
+  | TProcInst _ _ :: r => norm_stream r
+  | TDirective _ :: r => norm_stream r
   | x :: r => x :: norm_stream r
   end.
 
